@@ -166,7 +166,7 @@ def c19_tables(tier):
     # T4: every keyword of symbol.json is a SYMBOL attribute for the re-typing rule, or opens a block / is hidden
     sprops = SC.expanded("symbol")["properties"]
     for k in sprops:
-        if k.startswith("__") or k in ("points", "include"):
+        if k.startswith("__"):
             continue
         out.append(rec("C19/T4", k, "symbol-keyword-known-to-the-retyping-rule", k.upper() in SYMBOL_ATTRIBUTES))
     # T6: every declared default is valid for its own keyword
